@@ -28,12 +28,18 @@ res = {"property": prop, "k": k}
 
 
 def sh(cmd, cwd=None, timeout=1800):
+    import signal
+    p = subprocess.Popen(cmd, shell=True, cwd=cwd, stdout=subprocess.PIPE, stderr=subprocess.STDOUT, text=True, start_new_session=True)
     try:
-        p = subprocess.run("exec " + cmd if not ("|" in cmd or "&&" in cmd) else cmd, shell=True, cwd=cwd, stdout=subprocess.PIPE,
-                           stderr=subprocess.STDOUT, text=True, timeout=timeout)
-    except subprocess.TimeoutExpired as e:
-        return 124, "TIMEOUT after %ss: %s" % (timeout, (e.stdout or "")[-300:] if isinstance(e.stdout, str) else "")
-    return p.returncode, p.stdout
+        out, _ = p.communicate(timeout=timeout)
+    except subprocess.TimeoutExpired:
+        try:
+            os.killpg(p.pid, signal.SIGKILL)
+        except OSError:
+            pass
+        out, _ = p.communicate()
+        return 124, "TIMEOUT after %ss: %s" % (timeout, (out or "")[-300:])
+    return p.returncode, out
 
 
 wt = tempfile.mkdtemp(prefix="mv_", dir="/tmp")
